@@ -28,6 +28,7 @@ from hypothesis import strategies as st
 
 from ..core import Clause, Violation, require, HarnessError
 from .. import gens
+from .. import gens_c04 as G4
 from ..oracles import crystal_match as cm
 
 RULE = ("unit cells of all seven crystal families (lattice parameters 2-22 A, optionally rigidly rotated, left-handed, "
@@ -164,10 +165,18 @@ def ucell_numbers(u):
         # whole-number cells: exactly diagonal (cos(90 deg) is 6e-17 in floating point)
         V = np.diag([float(x) for x in u['abc'][:3]])
     else:
-        lx, ly, lz, xy, xz, yz = gens.abc_to_lammps(*u['abc'])
+        abc = list(u['abc'])
+        al = u.get('almost')
+        if al:
+            # class E: a cell 1e-12 .. 1e-3 away from its (more symmetric) family: lengths x (1 + e), angles + e radians
+            abc = [abc[i] * (1.0 + al[i]) for i in range(3)] + [abc[3 + i] + float(np.degrees(al[3 + i])) for i in range(3)]
+        lx, ly, lz, xy, xz, yz = gens.abc_to_lammps(*abc)
         V = np.array([[lx, 0.0, 0.0], [xy, ly, 0.0], [xz, yz, lz]], dtype=float)
     if u.get('lh'):
         V[2] = -V[2]
+    if u.get('sym'):
+        # class G: lattice vectors relabelled, Cartesian axes exactly permuted / reversed (no arithmetic: the zeros stay zeros)
+        V = G4.apply_sym(V, u['sym'])
     if u.get('rot'):
         V = V @ gens.rotation_matrix(*u['rot']).T
     # overall LENGTH SCALE 10^k of the whole geometric input (cell vectors, hence origin = orel.V and positions = s.V + o):
@@ -203,9 +212,16 @@ class Model:
 #   box   vects | list | tuple | avects (avect=,bvect=,cvect=) | fortran | readonly | setters (Box() then .vects/.origin
 #         assigned) | set (Box() then .set(vects=, origin=)) | intlist (whole cells: lists of Python ints)
 #   sys   plain | scaled (Atoms holding relative coordinates + System(scale=True)) | safecopy
+#   (class C, added after the fourth seeded round)
+#   pos   fbe  big-endian float64 ndarray; int32 / int16 / int8 / uint / intbe: whole-number positions in a narrower, unsigned or
+#         big-endian integer ndarray (whole cells; int64 when a value does not fit)
+#   box   bigend (big-endian float64 arrays) | intarr / int32 / int16 (whole cells: integer ndarrays) | f32 (whole cells: float32)
+#   per-atom properties (case field 'props'): tags at the limits of int8 .. int64 / unsigned / big-endian, float32 / big-endian /
+#         17-decade vector property (gens_c04.tag_array, vec_array)
 DEFAULT_FORMS = {'pos': 'float', 'box': 'vects', 'sys': 'plain'}
 LOWPREC = ('f32', 'f16')
 INTPOS = ('int', 'intlist')
+INTPOS_NARROW = ('int32', 'int16', 'uint', 'intbe', 'int8')
 
 
 def _form_pos(x, form):
@@ -227,6 +243,10 @@ def _form_pos(x, form):
         return x.astype(np.float32)
     if form == 'f16':
         return x.astype(np.float16)
+    if form == 'fbe':
+        return x.astype('>f8')
+    if form in INTPOS_NARROW:
+        return G4.int_narrow(x, form)
     if form in INTPOS:
         xi = np.rint(x).astype(np.int64)
         if not np.array_equal(xi.astype(float), x):
@@ -260,6 +280,17 @@ def _form_box(am, V, o, form):
         b = am.Box()
         b.set(vects=V.copy(), origin=o.copy())
         return b
+    if form == 'bigend':
+        return am.Box(vects=V.astype('>f8'), origin=o.astype('>f8'))
+    if form in ('intarr', 'int32', 'int16'):
+        if form == 'intarr':
+            return am.Box(vects=np.rint(V).astype(np.int64), origin=G4.int_narrow(o, 'int32'))
+        return am.Box(vects=G4.int_narrow(V, form), origin=G4.int_narrow(o, form))
+    if form == 'f32':
+        V32, o32 = V.astype(np.float32), o.astype(np.float32)
+        if not (np.array_equal(V32.astype(float), V) and np.array_equal(o32.astype(float), o)):
+            return am.Box(vects=V.copy(), origin=o.copy())        # not exactly representable: the plain form
+        return am.Box(vects=V32, origin=o32)
     if form == 'intlist':
         Vi, oi = np.rint(V).astype(np.int64), np.rint(o).astype(np.int64)
         if not (np.array_equal(Vi.astype(float), V) and np.array_equal(oi.astype(float), o)):
@@ -268,9 +299,10 @@ def _form_box(am, V, o, form):
     raise HarnessError('box form %r' % (form,))
 
 
-def build_system(am, u, forms=None, labels=None):
-    """-> system, Model.  forms: see above (None: the plain float64 forms)"""
+def build_system(am, u, forms=None, labels=None, pforms=None):
+    """-> system, Model.  forms: see above (None: the plain float64 forms); pforms: {'tag':, 'vec':} forms of the per-atom properties"""
     forms = dict(DEFAULT_FORMS, **(forms or {}))
+    pforms = pforms or {}
     V, o, s, types, vec = ucell_numbers(u)
     M = Model(V, o, s)
     pf, bf, sf = forms['pos'], forms['box'], forms['sys']
@@ -296,8 +328,21 @@ def build_system(am, u, forms=None, labels=None):
             labels.update({'forms', 'pos_' + pf, 'box_' + bf, 'sys_' + sf})
     # scale=True converts the positions in the caller's array (shared unless safecopy=True, documented): not for read-only / rounded / integer ones
     scaled = sf == 'scaled' and pf in ('float', 'list', 'fortran', 'strided')
-    props = dict(atype=np.array(types, dtype=int), tag=np.arange(len(s), dtype=int), vec=vec.copy())
-    atoms = am.Atoms(pos=_form_pos(M.s if scaled else M.pos, pf), **props)
+    tf, vf = pforms.get('tag', 'int'), pforms.get('vec', 'f8')
+    props = dict(atype=np.array(types, dtype=int), tag=G4.tag_array(len(s), tf), vec=G4.vec_array(vec, vf))
+    if labels is not None:
+        if tf != 'int':
+            labels.update({'props_dtype', 'tag_' + tf})
+        if vf != 'f8':
+            labels.add('vec_' + vf)
+            if 'decades' in vf and len(s) >= 2:
+                labels.add('vec_decades')
+            if vf != 'decades':
+                labels.add('props_dtype')
+    parr = _form_pos(M.s if scaled else M.pos, pf)
+    if labels is not None and pf in INTPOS_NARROW and parr.dtype != np.int64:
+        labels.add('pos_narrowint')
+    atoms = am.Atoms(pos=parr, **props)
     box = _form_box(am, V, o, bf)
     if scaled:
         system = am.System(atoms=atoms, box=box, scale=True)
@@ -325,6 +370,21 @@ def ucell_labels(u):
         labs.add('nearface')
     if u.get('whole'):
         labs.add('whole')
+    if u.get('almost'):
+        labs.add('almost')
+        if max(abs(x) for x in u['almost']) >= 1e-6:
+            labs.add('almost_ge1e-6')
+    if u.get('sym'):
+        labs.add('sym')
+        sy = u['sym']
+        if sy['rows'] != [0, 1, 2]:
+            labs.add('sym_rows')
+        elif sy['cols'] == [0, 1, 2] and min(sy['sg']) < 0 and not u.get('rot'):
+            labs.add('sym_tri_neg')          # still lower triangular, negative diagonal entries
+    if u.get('edge'):
+        labs.add('edge')
+    if u.get('half'):
+        labs.add('origin_half')
     labs.update(scale_labels(ucell_scale(u)))
     return labs
 
@@ -596,7 +656,7 @@ def apply_history(am, system, M, hist, labels):
 
 def prepare(am, case, labels):
     """build the unit cell of a case in its input form, run its history; -> system, Model, snapshot (after the history)"""
-    system, M = build_system(am, case['ucell'], case.get('forms'), labels)
+    system, M = build_system(am, case['ucell'], case.get('forms'), labels, case.get('props'))
     system = apply_history(am, system, M, case.get('hist') or [], labels)
     model_labels(M, labels)
     return system, M, snapshot(system)
@@ -632,6 +692,8 @@ _hdr = st.lists(_byte, min_size=15, max_size=15)
 SCALE_K = (0,) * 32 + (-10,) * 10 + (-12, -11, -9, -8, -7, -6, -5, -4, -3, -2, -1, 1, 2, 3, 4, 5, 6, -12, -8, -6, 3, 6)
 SCALE_K_WHOLE = (0,) * 32 + (1, 2, 3, 4, 5, 6) * 5 + (1, 6)
 assert len(SCALE_K) == 64 and len(SCALE_K_WHOLE) == 64
+# classes E / G (see gens_c04): [0] sym on/off, [1..3] sym, [4] almost on/off, [5..10] almost, [11] half-origin on/off, [12] edge on/off
+_xhdr = st.lists(_byte, min_size=13, max_size=13)
 _coords = [None] + [st.lists(_byte, min_size=3 * n, max_size=3 * n) for n in range(1, 6)]
 NATOMS = (1, 2, 2, 3, 3, 3, 4, 4, 5, 5)
 _rot = gens.rotations(min_angle=1.0)
@@ -639,9 +701,10 @@ _family = st.sampled_from(FAMILIES)
 _seed = st.integers(0, 10 ** 6)
 # distances from a face of the *re-oriented* cell, just inside / just outside each of the documented default
 # tolerances of rotate(tol=None) ("tol values ranging from 1e-4 to 1e-8"; the code tries 1e-4, 1e-5, 1e-6, 1e-7)
-NEAR_T = (1e-4, 1e-5, 1e-6, 1e-7)
+# (class E: 1e-8, 1e-10, 1e-12 added - far below the last rung, where every tolerance of the ladder rounds the atom to the face)
+NEAR_T = (1e-4, 1e-5, 1e-6, 1e-7, 1e-8, 1e-10, 1e-12)
 NEAR_F = (0.5, 0.99, 1.005, 1.05, 2.0, 0.99, 1.005)
-_near = st.lists(st.integers(0, 2 * 3 * 4 * 7 - 1), min_size=1, max_size=2)
+_near = st.lists(st.integers(0, 2 * 3 * 7 * 7 - 1), min_size=1, max_size=2)
 
 
 WHOLE_FAMILIES = ('cubic', 'tetragonal', 'orthorhombic')
@@ -653,9 +716,19 @@ WHOLE_ABC = {'cubic': [(4, 4, 4), (8, 8, 8), (12, 12, 12)],
 _fbytes = st.lists(_byte, min_size=4, max_size=4)
 _hlen = st.sampled_from([0, 0, 0, 1, 1, 2, 2, 3])
 _hbytes = [None] + [st.lists(_byte, min_size=6 * n, max_size=6 * n) for n in range(1, 4)]
-POS_FORMS = ('float',) * 7 + ('list', 'list', 'fortran', 'strided', 'readonly', 'f32', 'f16', 'f16', 'f32')
-POS_FORMS_F64 = ('float',) * 6 + ('list', 'list', 'fortran', 'strided', 'readonly')
-BOX_FORMS = ('vects',) * 6 + ('list', 'tuple', 'avects', 'fortran', 'readonly', 'setters', 'set')
+POS_FORMS = ('float',) * 7 + ('list', 'list', 'fortran', 'strided', 'readonly', 'f32', 'f16', 'f16', 'f32', 'fbe')
+POS_FORMS_F64 = ('float',) * 6 + ('list', 'list', 'fortran', 'strided', 'readonly', 'fbe')
+BOX_FORMS = ('vects',) * 6 + ('list', 'tuple', 'avects', 'fortran', 'readonly', 'setters', 'set', 'bigend')
+WHOLE_POS = INTPOS + INTPOS_NARROW + ('int', 'intlist')          # nine entries
+WHOLE_BOX = ('vects', 'intlist', 'list', 'intarr', 'int32', 'int16', 'f32')
+
+
+def post_level(forms, level='full'):
+    """what the operations after the judged call may do (gens_c04.decode_post): no position is written into a read-only or
+    reduced-precision array"""
+    if forms and (forms['pos'] in LOWPREC or forms['pos'] == 'readonly'):
+        return 'pure'
+    return level
 SYS_FORMS = ('plain',) * 5 + ('scaled', 'scaled', 'safecopy')
 
 
@@ -665,7 +738,7 @@ def forms_and_history(draw, u, level='full', lowprec=True):
     about 3 in 8 have no history."""
     fb = draw(_fbytes)
     if u.get('whole'):
-        forms = {'pos': INTPOS[fb[0] % 2] if fb[0] % 8 else 'float', 'box': ('vects', 'intlist', 'list')[fb[1] % 3],
+        forms = {'pos': WHOLE_POS[fb[0] % len(WHOLE_POS)] if fb[0] % 8 else 'float', 'box': WHOLE_BOX[fb[1] % len(WHOLE_BOX)],
                  'sys': 'safecopy' if fb[2] % 8 == 0 else 'plain'}
     elif fb[3] % 3 == 0:
         forms = None
@@ -736,8 +809,12 @@ def _family_abc(fam, lat, ang):
 
 
 @st.composite
-def ucells(draw, family=None, far_origin=True, allow_lh=True, nearface=None, max_atoms=5, origin=True, whole=False):
-    """nearface: None, or an integer 3x3 matrix U: the atoms are then drawn in the relative coordinates s' of the
+def ucells(draw, family=None, far_origin=True, allow_lh=True, nearface=None, max_atoms=5, origin=True, whole=False,
+           sensitive=False, edge_min=3):
+    """sensitive: a tolerance of the code under test decides about the family of this cell (Miller-Bravais rows, check_family):
+    the cell stays within 1e-9 of its family and keeps the labels of its vectors.  edge_min: atoms next to a face of the unit cell
+    are 10^-k of the cell from it, k = edge_min .. 12.
+    nearface: None, or an integer 3x3 matrix U: the atoms are then drawn in the relative coordinates s' of the
     cell U.vects with one or two coordinates each a tolerance-ladder distance from a face of *that* cell, and
     converted to the unit cell (s = frac(s'.U)).
     whole: a cubic / tetragonal / orthorhombic cell in standard orientation whose lattice parameters (4, 8, 12), origin
@@ -745,6 +822,7 @@ def ucells(draw, family=None, far_origin=True, allow_lh=True, nearface=None, max
     over as integer arrays / lists of Python ints"""
     hd = draw(_hdr)
     sd = draw(_seed)
+    xh = draw(_xhdr)
     if whole:
         fam = WHOLE_FAMILIES[hd[13] % 3]
         abc = [float(x) for x in WHOLE_ABC[fam][hd[0] % len(WHOLE_ABC[fam])]] + [90.0, 90.0, 90.0]
@@ -756,10 +834,14 @@ def ucells(draw, family=None, far_origin=True, allow_lh=True, nearface=None, max
         if origin and hd[9] % 10 >= 5:
             orel = [float(hd[6 + i] % 7 - 3) for i in range(3)] if (far_origin and hd[9] % 10 >= 8) else \
                    [float(hd[6 + i] % 3 - 1) for i in range(3)]
-        return {'family': fam, 'abc': abc, 'rot': None, 'lh': False, 'orel': orel, 'atoms': atoms,
-                'types': [1 + int(3 * _jit(sd, 200 + i)) % 3 for i in range(len(atoms))],
-                'vec': [[round(10.0 * _jit(sd, 300 + 3 * i + c) - 5.0, 3) for c in range(3)] for i in range(len(atoms))],
-                'whole': True, 'scale': 10.0 ** SCALE_K_WHOLE[hd[14] % 64]}
+        u = {'family': fam, 'abc': abc, 'rot': None, 'lh': False, 'orel': orel, 'atoms': atoms,
+             'types': [1 + int(3 * _jit(sd, 200 + i)) % 3 for i in range(len(atoms))],
+             'vec': [[round(10.0 * _jit(sd, 300 + 3 * i + c) - 5.0, 3) for c in range(3)] for i in range(len(atoms))],
+             'whole': True, 'scale': 10.0 ** SCALE_K_WHOLE[hd[14] % 64]}
+        if xh[0] % 4 == 0:
+            # exact signed permutations keep whole numbers whole (proper ones only: whole cells are right-handed)
+            u['sym'] = G4.sym_of(xh[1], xh[2], xh[3], True, False)
+        return u
     fam = family or FAMILIES[hd[13] % len(FAMILIES)]
     d_origin, d_rot, d_lh, d_n = hd[9] % 10, hd[10] % 10, hd[11] % 10, hd[12] % 10
     abc = _family_abc(fam, [_u01(hd[i], sd, i) for i in range(3)], [_u01(hd[3 + i], sd, 3 + i) for i in range(3)])
@@ -767,13 +849,22 @@ def ucells(draw, family=None, far_origin=True, allow_lh=True, nearface=None, max
     cs = draw(_coords[n])
     atoms = [[_coord_of(cs[3 * i + c], sd, 3 * i + c) for c in range(3)] for i in range(n)]
     nf = nearface is not None
+    edge = (not nf) and xh[12] % 8 == 0
+    if edge:
+        # class E: atoms 1e-12 .. 10^-edge_min (relative) from a face of the UNIT cell, either side (one coordinate in three)
+        for i in range(n):
+            for c in range(3):
+                v = cs[3 * i + c]
+                if v % 3 == 0:
+                    d = 10.0 ** -(edge_min + (v // 3) % (13 - edge_min))
+                    atoms[i][c] = 1.0 - d if (v // 64) % 2 else d
     if nf:
         Um = np.array(nearface, dtype=float)
         new = []
         for a in atoms[:4]:
             sp = [min(x, 0.999) for x in a]
             for code in draw(_near):
-                k, side, t, f = code % 3, (code // 3) % 2, (code // 6) % 4, (code // 24) % 7
+                k, side, t, f = code % 3, (code // 3) % 2, (code // 6) % 7, (code // 42) % 7
                 d = NEAR_T[t] * NEAR_F[f]
                 sp[k] = 1.0 - d if side else d
             so = np.array(sp) @ Um
@@ -791,12 +882,27 @@ def ucells(draw, family=None, far_origin=True, allow_lh=True, nearface=None, max
             orel = [round(60.0 * _u01(hd[6 + i], sd, 6 + i) - 30.0, 0 if hd[6 + i] % 4 == 0 else 2) for i in range(3)]
         elif d_origin >= 6:
             orel = [round(1.9 * _u01(hd[6 + i], sd, 6 + i) - 0.95, 3) for i in range(3)]
+    half = False
+    if origin and xh[11] % 10 == 0:
+        # class G: origin at exact half lattice vectors (ties of every rounding to the nearest lattice vector)
+        orel = [0.5 * (hd[6 + i] % 11 - 5) for i in range(3)] if far_origin else [0.5 * (hd[6 + i] % 3 - 1) for i in range(3)]
+        if not any(x % 1.0 for x in orel):
+            orel[hd[9] % 3] = 0.5
+        half = True
     rot = draw(_rot) if d_rot >= 7 else None
     lh = bool(allow_lh and d_lh == 9)
     u = {'family': fam, 'abc': abc, 'rot': rot, 'lh': lh, 'orel': orel,
          'atoms': atoms, 'types': types, 'vec': vec, 'scale': 10.0 ** SCALE_K[hd[14] % 64]}
     if nf:
         u['nearface'] = True
+    if edge:
+        u['edge'] = True
+    if half:
+        u['half'] = True
+    if rot is None and xh[0] % 5 == 0:
+        u['sym'] = G4.sym_of(xh[1], xh[2], xh[3], not sensitive, allow_lh)
+    if not nf and xh[4] % 6 == 0:
+        u['almost'] = G4.almost_of(xh[5:11], sensitive)
     return u
 
 
@@ -881,10 +987,220 @@ def match_tol(*arrays, unit=1.0):
     return 1e-7 * L
 
 
+# ----------------------------------------------------------------------------- working units (class D)
+#
+# Nothing under this property converts units, but conventional_to_primitive has two defaults that are lengths in WORKING units
+# (atol = 1e-8, smallshift = 0.001) and Box / rotate decide with tolerances of their own.  A case with a unit plan is judged - by the
+# same oracle - first under the default configuration (plan['pre']), then after atomman.unitconvert.reset_units(<cfg>) with every
+# length of the case multiplied by numericalunits.angstrom (my own product: the same physical cell in the new working units).  The
+# default configuration is ALWAYS restored: the cases of a shard share one process.
+
+def with_units(case, run):
+    plan = case.get('units')
+    if not plan:
+        return run(case)
+    import atomman.unitconvert as uc
+    import numericalunits as nu
+    base = dict(case, units=None)
+    cfg = plan['cfg']
+    try:
+        if plan.get('pre'):
+            try:
+                run(base)
+            except Violation as v:
+                raise Violation('%s [under the default working units; the same case was to be judged again after %s]'
+                                % (v.detail, G4.cfg_text(cfg)), key=v.key) from None
+        G4.apply_units(uc, cfg)
+        A = float(nu.angstrom)
+        u2 = dict(case['ucell'], scale=ucell_scale(case['ucell']) * A)
+        try:
+            labels = set(run(dict(base, ucell=u2)))
+        except Violation as v:
+            raise Violation('%s [under %s, every length of the case multiplied by numericalunits.angstrom = %r%s]'
+                            % (v.detail, G4.cfg_text(cfg), A, ', after the same case under the default working units' if plan.get('pre') else ''),
+                            key=v.key) from None
+        labels |= {'units', 'units_' + cfg['kind']}
+        if plan.get('pre'):
+            labels.add('units_pre')
+        return labels
+    finally:
+        G4.restore_units(uc)
+
+
+# ----------------------------------------------------------------------------- after the judged call (classes A and B)
+
+def args_frozen(args):
+    """[(name, object)] -> frozen copies of the array / list / tuple arguments of a call"""
+    out = {}
+    for name, a in args:
+        if isinstance(a, np.ndarray):
+            out[name] = ('array', a.dtype.str, a.shape, np.ascontiguousarray(a).tobytes())
+        else:
+            out[name] = ('repr', repr(a))
+    return out
+
+
+def require_args_untouched(args, frozen, what):
+    now = args_frozen(args)
+    for name, _ in args:
+        require(now[name] == frozen[name], lambda: '%s: the argument %s was modified by the call (it is no longer what the caller handed in)' % (what, name))
+
+
+class PostCtx:
+    """what the operations after the judged call need from the oracle:
+    call(system, keep) -> out   the judged call again, with FRESH argument objects (appended to keep as (name, object)), on `system`
+    judge(out, M, snap)         the oracle of the clause: out is the answer for the unit cell M / the system snapshot snap
+    first                       the answer that was judged; args: the argument objects it was given"""
+
+    def __init__(self, am, case, labels, what, sys0, M, snap, first, args, call, judge, level):
+        self.am, self.case, self.labels, self.what = am, case, labels, what
+        self.sys0, self.M, self.snap, self.first, self.args = sys0, M, snap, first, args
+        self.call, self.judge, self.level = call, judge, level
+
+
+def _twin_system(am, case):
+    """another system of the same shape: the unit cell of the case 1.37 (whole cells: 2) times larger, other property values"""
+    u = case['ucell']
+    f = 2.0 if u.get('whole') else 1.37
+    u2 = dict(u, abc=[round(x * f, 6) for x in u['abc'][:3]] + list(u['abc'][3:]),
+              vec=[[round(-2.0 * x + 1.0, 3) for x in r] for r in u['vec']])
+    twin, _ = build_system(am, u2)
+    twin.atoms.tag += 100
+    return twin
+
+
+def run_post(ctx):
+    """classes A (ledger) and B (caller-side mutation): see gens_c04.POST_KINDS"""
+    am, labels, what = ctx.am, ctx.labels, ctx.what
+    led = G4.Ledger()
+    sys0, cur = ctx.sys0, ctx.first
+    M = Model(ctx.M.V, ctx.M.o, ctx.M.s)
+    M.pos = ctx.M.pos.copy()
+    snap = ctx.snap
+    led.add('the system the call was made on', sys0)
+    led.add('the answer of the judged call', cur)
+    cur_frozen = G4.freeze(cur)
+    pair = G4.share_memory(cur, sys0)
+    require(pair is None, lambda: '%s: the returned %s shares memory with %s of the system the call was made on' % (what, pair[0], pair[1]))
+    labels.add('post')
+
+    def again(after):
+        keep = []
+        out = ctx.call(sys0, keep)
+        if out is None:
+            return None
+        k = G4.first_difference(cur_frozen, G4.freeze(out), bitwise=False)
+        require(k is None, lambda: '%s: the same call on the same system, %s, gives another answer: %s differs' % (what, after, k))
+        pr = G4.share_memory(out, cur)
+        require(pr is None, lambda: '%s: two calls returned objects that share memory (%s / %s)' % (what, pr[0], pr[1]))
+        led.add('the answer of the repeated call', out)
+        return out
+
+    for op in ctx.case['post']:
+        kind = op['op']
+        labels.add('post_' + kind)
+        after = 'post operation %r' % (op,)
+        if kind == 'again':
+            again('called a second time')
+        elif kind == 'twin':
+            twin = _twin_system(am, ctx.case)
+            out = ctx.call(twin, [])
+            if out is not None:
+                led.add('the answer of the same call on another system of the same shape', out)
+                led.add('the other system of the same shape', twin)
+                r2 = out[0]
+                require(set(np.asarray(r2.atoms.tag).tolist()) <= set(np.asarray(twin.atoms.tag).tolist()),
+                        lambda: '%s: the same call on another system returned tags %r that are not tags of that system'
+                        % (what, sorted(set(np.asarray(r2.atoms.tag).tolist()))[:8]))
+        elif kind == 'other':
+            _op_other(am, op['k'])
+            _op_call(am, sys0, H_CALLS_PURE[op['k'] % len(H_CALLS_PURE)], op['k'] // 7, labels)
+        elif kind == 'mut_args':
+            n_mut = 0
+            for name, a in ctx.args:
+                if isinstance(a, np.ndarray) and a.flags.writeable:
+                    a[...] = 0
+                    n_mut += 1
+                elif isinstance(a, list):
+                    del a[:]
+                    n_mut += 1
+            if n_mut:
+                labels.add('post_mut_args_live')
+            led.verify(after, what)
+            again('after the caller overwrote the argument objects of the first call in place')
+        elif kind == 'mut_in':
+            how = op['how']
+            labels.add('post_mut_in_' + how)
+            if how.startswith('pos'):
+                M.s = _my_frac(M.s + np.array(op['t'], dtype=float))
+                M.refresh()
+                if how == 'pos_inplace':
+                    sys0.atoms.pos[:] = M.pos
+                elif how == 'pos_prop':
+                    sys0.atoms_prop(key='pos', value=M.pos.copy())
+                else:
+                    sys0.atoms_prop('pos', value=M.s.copy(), scale=True)
+            elif how == 'props':
+                sys0.atoms.tag[:] = np.array(sys0.atoms.tag)[::-1]
+                sys0.atoms.vec[:] = -np.array(sys0.atoms.vec)[::-1]
+            elif how == 'box':
+                V2, o2 = 1.25 * M.V, 1.25 * M.o
+                sys0.box_set(vects=V2.copy(), origin=o2.copy(), scale=True)
+                M.V, M.o = V2, o2
+                M.refresh()
+            else:
+                raise HarnessError('mut_in %r' % (how,))
+            led.forget(sys0)
+            led.verify(after, what)
+            snap = snapshot(sys0)
+            led.add('the system the call was made on (as changed by the caller)', sys0)
+            keep = []
+            out = ctx.call(sys0, keep)
+            if out is not None:
+                ctx.judge(out, M, snap, ' [called again after the caller changed the system: %r]' % (op,))
+                led.add('the answer after the caller changed the system', out)
+                cur, cur_frozen = out, G4.freeze(out)
+                labels.add('post_rejudged')
+            else:
+                cur = None
+        elif kind == 'mut_out':
+            if cur is None:
+                continue
+            led.forget(cur)
+            for x in cur:
+                if x is None:
+                    continue
+                if isinstance(x, np.ndarray):
+                    x[...] = 0.0
+                    continue
+                if op['how'] == 'inplace':
+                    x.atoms.pos[:] = 7.7
+                    x.atoms.tag[:] = 1
+                    x.atoms.vec[:] = 0.5
+                    x.atoms.atype[:] = 1
+                else:
+                    x.atoms.pos = np.full((x.natoms, 3), -3.3)
+                    x.atoms_prop(key='tag', value=np.zeros(x.natoms, dtype=int))
+                    x.atoms.view['vec'] = np.ones((x.natoms, 3))
+                x.box_set(vects=[[3.3, 0.0, 0.0], [0.1, 4.4, 0.0], [0.2, 0.3, 5.5]], origin=[1.0, 2.0, 3.0])
+            require_untouched(sys0, snap, what + ' [after the caller overwrote the returned objects in place]')
+            led.verify(after, what)
+            out = again('after the caller overwrote the objects the first call returned')
+            cur = out
+            if out is None:
+                continue
+        else:
+            raise HarnessError('post op %r' % (kind,))
+        led.verify(after, what)
+        if cur is None:
+            break
+
+
 # ----------------------------------------------------------------------------- supersize
 
-KMAP = (2, 1, 3, 1, 2, 4, 5, 6)          # byte % 8 -> multiplier (Hypothesis over-produces the minimal draw: make it 2, not 1)
-_kind = st.sampled_from(['pos', 'pos', 'neg', 'two', 'two', 'tuple_pos', 'tuple_neg', 'np', 'np32', 'nptuple'])
+KMAP =(2, 1, 3, 1, 2, 4, 5, 6)          # byte % 8 -> multiplier (Hypothesis over-produces the minimal draw: make it 2, not 1)
+_kind = st.sampled_from(['pos', 'pos', 'neg', 'two', 'two', 'tuple_pos', 'tuple_neg', 'np', 'np32', 'nptuple',
+                         'narrow', 'narrow', 'narrowtuple'])
 
 
 @st.composite
@@ -904,6 +1220,12 @@ def supersize_cases(draw):
             sizes.append({'f': 'int', 'v': -k})
         elif kind in ('np', 'np32'):
             sizes.append({'f': kind, 'v': k if r % 2 else -k})
+        elif kind == 'narrow':
+            # class C: numpy integer scalars of every width, unsigned for positive multipliers
+            sizes.append({'f': G4.SIZE_NARROW[(r // 2) % len(G4.SIZE_NARROW)], 'v': k if r % 2 else -k})
+        elif kind == 'narrowtuple':
+            j = 1 + r % (k - 1) if k > 1 else r % 2
+            sizes.append({'f': 'narrowtuple', 'v': [-j, k - j]})
         elif kind == 'tuple_pos':
             sizes.append({'f': 'tuple', 'v': [0, k]})
         elif kind == 'tuple_neg':
@@ -912,7 +1234,9 @@ def supersize_cases(draw):
             j = 1 + r % (k - 1) if k > 1 else r % 2
             sizes.append({'f': 'nptuple' if kind == 'nptuple' else 'tuple', 'v': [-j, k - j]})
     forms, hist = forms_and_history(draw, u)
-    return {'ucell': u, 'sizes': sizes, 'forms': forms, 'hist': hist}
+    case = {'ucell': u, 'sizes': sizes, 'forms': forms, 'hist': hist}
+    case.update(G4.extras(draw, u, post_level(forms)))
+    return case
 
 
 def _size_arg(sz):
@@ -925,30 +1249,19 @@ def _size_arg(sz):
         return np.int32(sz['v']), (min(sz['v'], 0), max(sz['v'], 0))
     if sz['f'] == 'nptuple':
         return (np.int64(sz['v'][0]), np.int32(sz['v'][1])), (int(sz['v'][0]), int(sz['v'][1]))
+    if sz['f'] in G4.SIZE_NARROW:
+        return G4.size_scalar(int(sz['v']), sz['f']), (min(sz['v'], 0), max(sz['v'], 0))
+    if sz['f'] == 'narrowtuple':
+        return (np.int8(sz['v'][0]), np.uint16(sz['v'][1])), (int(sz['v'][0]), int(sz['v'][1]))
     return (int(sz['v'][0]), int(sz['v'][1])), (int(sz['v'][0]), int(sz['v'][1]))
 
 
-def oracle_supersize(case):
-    import atomman as am
-    u = case['ucell']
-    labels = ucell_labels(u)
-    sys0, M, snap = prepare(am, case, labels)
-    V, o, pos0 = M.V, M.o, M.pos
-    args, los, ks = [], [], []
-    for sz in case['sizes']:
-        a, (lo, hi) = _size_arg(sz)
-        args.append(a); los.append(lo); ks.append(hi - lo)
-        labels.add('arg_' + ('np' if sz['f'].startswith('np') else sz['f']))
+def _judge_supersize(res, snap, V, o, pos0, los, ks, what, sc):
+    """the supersize oracle: res is the unit cell (V, o, pos0; per-atom data in snap) replicated ks times from los"""
     n = ks[0] * ks[1] * ks[2]
-    res = sys0.supersize(*args)
-    sc = ucell_scale(u)
-    what = 'supersize%r' % (tuple(args),) + _scale_note(sc)
-    if case.get('hist') or case.get('forms'):
-        what += ' [unit cell given as %r, after the history %r]' % (case.get('forms') or DEFAULT_FORMS, case.get('hist'))
     N = len(pos0)
     require(res.natoms == N * n, lambda: '%s: %d atoms, expected %d x %d' % (what, res.natoms, N, n))
     require_props_present(res, what)
-    require_untouched(sys0, snap, what)
     B = np.asarray(res.box.vects, dtype=float)
     bo = np.asarray(res.box.origin, dtype=float)
     expB = V * np.array(ks, dtype=float)[:, None]
@@ -975,6 +1288,37 @@ def oracle_supersize(case):
     require(rep.maxdist <= ptol,
             lambda: '%s: replicas lie up to %.3g from the original atoms modulo the lattice: positions were not carried in '
                     'double precision (bound %.3g; result pos dtype %s)' % (what, rep.maxdist, ptol, np.asarray(res.atoms.pos).dtype))
+
+
+def oracle_supersize(case):
+    return with_units(case, _oracle_supersize)
+
+
+def _oracle_supersize(case):
+    import atomman as am
+    u = case['ucell']
+    labels = ucell_labels(u)
+    sys0, M, snap = prepare(am, case, labels)
+    V, o, pos0 = M.V, M.o, M.pos
+    args, los, ks = [], [], []
+    for sz in case['sizes']:
+        a, (lo, hi) = _size_arg(sz)
+        args.append(a); los.append(lo); ks.append(hi - lo)
+        labels.add('arg_' + ('np' if sz['f'].startswith('np') else 'narrow' if sz['f'].startswith('narrow') else sz['f']))
+        if sz['f'] in G4.SIZE_NARROW or sz['f'] == 'narrowtuple':
+            labels.update({'arg_np', 'arg_narrow'})
+    n = ks[0] * ks[1] * ks[2]
+    named = [('multiplier %d' % i, a) for i, a in enumerate(args)]
+    frozen = args_frozen(named)
+    res = sys0.supersize(*args)
+    sc = ucell_scale(u)
+    what = 'supersize%r' % (tuple(args),) + _scale_note(sc)
+    if case.get('hist') or case.get('forms') or case.get('props'):
+        what += ' [unit cell given as %r, per-atom properties as %r, after the history %r]' % (
+            case.get('forms') or DEFAULT_FORMS, case.get('props'), case.get('hist'))
+    require_args_untouched(named, frozen, what)
+    require_untouched(sys0, snap, what)
+    _judge_supersize(res, snap, V, o, pos0, los, ks, what, sc)
     if n > 1:
         labels.add('replicated')
     neg = any(lo < 0 for lo in los)
@@ -986,6 +1330,13 @@ def oracle_supersize(case):
         labels.add('mults_distinct')
     if n > 1 and neg:
         labels.add('nt')
+    if case.get('post'):
+        def call(system, keep):
+            return (system.supersize(*[_size_arg(sz)[0] for sz in case['sizes']]),)
+
+        def judge(out, M2, snap2, note):
+            _judge_supersize(out[0], snap2, M2.V, M2.o, M2.pos, los, ks, what + note, sc)
+        run_post(PostCtx(am, case, labels, what, sys0, M, snap, (res,), named, call, judge, 'full'))
     return labels
 
 
@@ -1019,7 +1370,9 @@ CLASSIC = [
 _mat3 = st.lists(st.lists(st.integers(-3, 3), min_size=3, max_size=3), min_size=3, max_size=3)
 _mat4 = st.lists(st.lists(st.integers(-4, 4), min_size=3, max_size=3), min_size=3, max_size=3)
 _mat2 = st.lists(st.lists(st.integers(-2, 2), min_size=3, max_size=3), min_size=3, max_size=3)
-_mkind = st.sampled_from(['rand'] * 7 + ['rand4'] * 2 + ['classic', 'signperm', 'diag'])
+_mkind = st.sampled_from(['rand'] * 7 + ['rand4'] * 2 + ['classic', 'signperm', 'diag', 'tri'])
+# class G: lower / upper triangular vector sets with negative entries (already "in normal form" for a cell in LAMMPS orientation)
+_tri = st.lists(st.integers(-3, 3), min_size=7, max_size=7)
 _signperm = st.sampled_from(SIGNPERMS)
 _classic = st.sampled_from(CLASSIC)
 _diag = st.lists(st.sampled_from([-3, -2, -1, 1, 2, 3]), min_size=3, max_size=3)
@@ -1042,6 +1395,13 @@ def int_matrices(draw):
         if abs(d[0] * d[1] * d[2]) > 24:
             d[2] = 2 if d[2] > 0 else -2
         return [[d[0], 0, 0], [0, d[1], 0], [0, 0, d[2]]]
+    if kind == 'tri':
+        t = draw(_tri)
+        d = [x if x else (-1 if t[6] % 2 else 1) for x in t[:3]]
+        if abs(d[0] * d[1] * d[2]) > 24:
+            d[2] = 2 if d[2] > 0 else -2
+        M = [[d[0], 0, 0], [t[3], d[1], 0], [t[4], t[5], d[2]]]
+        return [list(r) for r in zip(*M)] if t[6] < 0 else M
     src = _mat4 if kind == 'rand4' else _mat3
     for _ in range(6):
         M = draw(src)
@@ -1062,7 +1422,9 @@ def hex_matrices(draw):
     return [[r[0], r[1], -(r[0] + r[1]), r[2]] for r in M]
 
 
-_uform = st.sampled_from(['list', 'list', 'array', 'float', 'float', 'tuple', 'fortran', 'readonly', 'int32', 'strided', 'npscalars'])
+_uform = st.sampled_from(['list', 'list', 'array', 'float', 'float', 'tuple', 'fortran', 'readonly', 'int32', 'strided', 'npscalars',
+                          'narrow', 'narrow', 'narrow', 'noisy'])
+_unarrow = st.sampled_from(G4.UVWS_NARROW)
 # rotate(uvws, tol=None, return_transform=False): the documented default of tol written out in the accepted forms
 # ("list or float"), and the call without return_transform
 _ropt = st.sampled_from([None] * 6 + ['tol_list', 'tol_tuple', 'tol_array', 'no_transform', 'no_transform', 'tol_list_no_transform'])
@@ -1074,25 +1436,30 @@ TOL_LADDER = (1e-4, 1e-5, 1e-6, 1e-7)
 IDENTITY = [[1, 0, 0], [0, 1, 0], [0, 0, 1]]
 
 
+def _uform_of(draw):
+    f = draw(_uform)
+    return draw(_unarrow) if f == 'narrow' else f
+
+
 @st.composite
 def rotate_cases(draw):
     k = draw(_int10)
     nf = draw(_int10) == 0
     whole = (not nf) and k >= 2 and draw(_int10) == 0
     level = 'noshift' if nf else 'full'
-    if k <= 1:
-        if draw(_int10) < 6:
-            H = draw(hex_matrices())
-            u = draw(ucells(family='hexagonal', nearface=hex4to3(H) if nf else None))
-            forms, hist = forms_and_history(draw, u, level, lowprec=not nf and hex4to3(H) != IDENTITY)
-            return {'ucell': u, 'uvws': H, 'form': draw(_uform), 'opt': draw(_ropt), 'forms': forms, 'hist': hist}
-        fam = 'hexagonal'
+    if k <= 1 and draw(_int10) < 6:
+        uv = draw(hex_matrices())
+        U = hex4to3(uv)
+        # 3x4 rows: rotate() decides with a tolerance whether the cell is hexagonal (sensitive: the cell stays within 1e-9 of it)
+        u = draw(ucells(family='hexagonal', nearface=U if nf else None, sensitive=True))
     else:
-        fam = None
-    M = draw(int_matrices())
-    u = draw(ucells(family=fam, nearface=M if nf else None, whole=whole))
-    forms, hist = forms_and_history(draw, u, level, lowprec=not nf and [list(r) for r in M] != IDENTITY)
-    return {'ucell': u, 'uvws': M, 'form': draw(_uform), 'opt': draw(_ropt), 'forms': forms, 'hist': hist}
+        uv = draw(int_matrices())
+        U = [list(r) for r in uv]
+        u = draw(ucells(family='hexagonal' if k <= 1 else None, nearface=uv if nf else None, whole=whole))
+    forms, hist = forms_and_history(draw, u, level, lowprec=not nf and U != IDENTITY)
+    case = {'ucell': u, 'uvws': uv, 'form': _uform_of(draw), 'opt': draw(_ropt), 'forms': forms, 'hist': hist}
+    case.update(G4.extras(draw, u, 'fixed' if nf else post_level(forms)))
+    return case
 
 
 def _uvws_arg(uvws, form):
@@ -1101,6 +1468,12 @@ def _uvws_arg(uvws, form):
         return [[int(x) for x in r] for r in uvws]
     if form == 'tuple':
         return tuple(tuple(int(x) for x in r) for r in uvws)
+    if form in G4.UVWS_NARROW:
+        # class C: int8 / int16 / unsigned / big-endian / bool / float32 / float16 arrays holding the same integers
+        return G4.uvws_narrow(uvws, form)
+    if form == 'noisy':
+        # class E: the integers with floating-point noise (1e-15 .. 1e-10 relative), as a computed vector set carries them
+        return G4.uvws_noisy(uvws, 1000 + sum((3 * i + 1) * int(x) for i, r in enumerate(uvws) for x in r))
     if form == 'npscalars':
         return [[np.int64(x) for x in r] for r in uvws]
     if form == 'array':
@@ -1129,43 +1502,35 @@ def _rotate_kwargs(opt):
     return kw
 
 
-def oracle_rotate(case):
-    import atomman as am
-    u = case['ucell']
-    labels = ucell_labels(u)
-    uv = case['uvws']
-    hex4 = len(uv[0]) == 4
-    U = np.array(hex4to3(uv) if hex4 else uv, dtype=int)
-    if (case.get('forms') or {}).get('pos') in LOWPREC and U.tolist() == IDENTITY:
-        # never generated (see IDENTITY above); a hand-written / older replay case is judged with float64 positions
-        case = dict(case, forms=dict(case['forms'], pos='float'))
-    sys0, M, snap = prepare(am, case, labels)
-    V, o, pos0 = M.V, M.o, M.pos
-    det = idet(U.tolist())
-    labels.add('form_' + case['form'])
-    opt = case.get('opt')
-    if opt:
-        labels.update({'opt', 'opt_' + opt})
-    if hex4:
-        labels.add('hex4')
-    sc = ucell_scale(u)
-    what = 'rotate(%r)' % (uv,) + _scale_note(sc)
-    if case.get('hist') or case.get('forms') or opt:
-        what += ' [%s; unit cell given as %r, after the history %r]' % (opt or 'return_transform=True', case.get('forms') or DEFAULT_FORMS, case.get('hist'))
-    kw = _rotate_kwargs(opt)
+def _rotate_call(am, system, case, labels, what, det, keep=None, plain=False):
+    """the judged call; keep: the argument objects handed over are appended as (name, object).  plain=True: the call with
+    return_transform=True only (the calls after the judged one)"""
+    uv, opt = case['uvws'], case.get('opt')
+
+    def args():
+        a = _uvws_arg(uv, case['form'])
+        kw = _rotate_kwargs(opt)
+        if keep is not None:
+            keep.append(('uvws', a))
+            if 'tol' in kw:
+                keep.append(('tol', kw['tol']))
+        return a, kw
     try:
-        if opt and opt.endswith('no_transform'):
+        if opt and opt.endswith('no_transform') and not plain:
             # the judged result is the one of the plain call; the rotation comes from a second, identical call
-            res = sys0.rotate(_uvws_arg(uv, case['form']), **kw)
+            a, kw = args()
+            res = system.rotate(a, **kw)
             require(isinstance(res, am.System), lambda: '%s without return_transform returned %r' % (what, type(res)))
-            out2 = sys0.rotate(_uvws_arg(uv, case['form']), return_transform=True, **kw)
+            a, kw = args()
+            out2 = system.rotate(a, return_transform=True, **kw)
             require(isinstance(out2, tuple) and len(out2) == 2, lambda: '%s with return_transform=True returned %r' % (what, type(out2)))
             require(res.natoms == out2[0].natoms and np.array_equal(res.atoms.pos, out2[0].atoms.pos)
                     and np.array_equal(res.box.vects, out2[0].box.vects) and np.array_equal(res.box.origin, out2[0].box.origin),
                     lambda: '%s: the system returned without return_transform differs from the one returned with it' % what)
             out = (res, out2[1])
         else:
-            out = sys0.rotate(_uvws_arg(uv, case['form']), return_transform=True, **kw)
+            a, kw = args()
+            out = system.rotate(a, return_transform=True, **kw)
     except ValueError as e:
         if 'Filtering failed' in str(e):
             key = None
@@ -1177,19 +1542,25 @@ def oracle_rotate(case):
                             % (what, e, det), key=key)
         raise
     require(isinstance(out, tuple) and len(out) == 2, lambda: '%s with return_transform=True returned %r' % (what, type(out)))
+    return out
+
+
+def _judge_rotate(out, snap, V, o, pos0, U, what, sc, labels=None):
+    """the rotate oracle: out = (system, transform) is the unit cell (V, o, pos0; per-atom data in snap) re-expressed along U.V"""
     res, T = out
+    det = idet(U.tolist())
     T = require_rotation(T, what)
     N = len(pos0)
     n = abs(det)
     require(res.natoms == N * n, lambda: '%s: %d atoms, expected %d x |det| = %d' % (what, res.natoms, N, N * n))
     require_props_present(res, what)
-    require_untouched(sys0, snap, what)
     B, bo = require_lammps_inside(res, what)
     # new box rows are the rotated integer combinations (third one reversed if they form a left-handed set)
     W = U.astype(float) @ V
     if np.linalg.det(W) < 0:
         W[2] = -W[2]
-        labels.add('cflip')
+        if labels is not None:
+            labels.add('cflip')
     condW = float(np.linalg.cond(W))
     expB = W @ T.T
     tolB = (1e-8 + 40 * EPS * condW ** 2) * np.abs(W).max()
@@ -1208,15 +1579,72 @@ def oracle_rotate(case):
             raise Violation(v.detail + ' [an atom lies exactly (to 1e-9 relative) one rung of rotate()\'s tolerance ladder '
                             '1e-4..1e-7 from a face of the new cell]', key=K_RUNG)
         raise
-    labels.add('reading%d' % reading)
+    if labels is not None:
+        labels.add('reading%d' % reading)
+
+
+def oracle_rotate(case):
+    return with_units(case, _oracle_rotate)
+
+
+def _oracle_rotate(case):
+    import atomman as am
+    u = case['ucell']
+    labels = ucell_labels(u)
+    uv = case['uvws']
+    hex4 = len(uv[0]) == 4
+    U = np.array(hex4to3(uv) if hex4 else uv, dtype=int)
+    if (case.get('forms') or {}).get('pos') in LOWPREC and U.tolist() == IDENTITY:
+        # never generated (see IDENTITY above); a hand-written / older replay case is judged with float64 positions
+        case = dict(case, forms=dict(case['forms'], pos='float'))
+    sys0, M, snap = prepare(am, case, labels)
+    V, o, pos0 = M.V, M.o, M.pos
+    det = idet(U.tolist())
+    labels.add('form_' + case['form'])
+    if case['form'] in G4.UVWS_NARROW:
+        labels.add('form_narrow')
+    opt = case.get('opt')
+    if opt:
+        labels.update({'opt', 'opt_' + opt})
+    if hex4:
+        labels.add('hex4')
+    sc = ucell_scale(u)
+    what = 'rotate(%r)' % (uv,) + _scale_note(sc)
+    if case['form'] in G4.UVWS_NARROW or case['form'] == 'noisy':
+        what += ' [uvws given as %r]' % (_uvws_arg(uv, case['form']),)
+    if case.get('hist') or case.get('forms') or opt or case.get('props'):
+        what += ' [%s; unit cell given as %r, per-atom properties as %r, after the history %r]' % (
+            opt or 'return_transform=True', case.get('forms') or DEFAULT_FORMS, case.get('props'), case.get('hist'))
+    named = []
+    out = _rotate_call(am, sys0, case, labels, what, det, named)
+    # the last set of argument objects handed over (the plain call has one set, the no_transform option two identical ones)
+    fresh = [('uvws', _uvws_arg(uv, case['form']))] + [('tol', v) for k, v in _rotate_kwargs(opt).items()]
+    frozen = args_frozen(fresh)
+    for nm, a in named:
+        require(args_frozen([(nm, a)])[nm] == frozen[nm],
+                lambda: '%s: the argument %s was modified by the call (it is no longer what the caller handed in): %r' % (what, nm, a))
+    require_untouched(sys0, snap, what)
+    _judge_rotate(out, snap, V, o, pos0, U, what, sc, labels)
+    n = abs(det)
     if det < 0:
         labels.add('detneg')
     if n == 1:
         labels.add('unimodular')
     if n >= 8:
         labels.add('bigdet')
+    if np.all(np.triu(U, 1) == 0) or np.all(np.tril(U, -1) == 0):
+        if np.any(np.diag(U) < 0) and not is_signed_perm(U.tolist()):
+            labels.add('uvws_tri_neg')
     if not is_signed_perm(U.tolist()):
         labels.add('nt')
+    if case.get('post'):
+        def call(system, keep):
+            return _rotate_call(am, system, case, labels, what + ' [called again]', det, keep, plain=True)
+
+        def judge(out2, M2, snap2, note):
+            _judge_rotate(out2, snap2, M2.V, M2.o, M2.pos, U, what + note, sc)
+        run_post(PostCtx(am, case, labels, what, sys0, M, snap, out, named[-(1 + len(_rotate_kwargs(opt))):], call, judge,
+                         'fixed' if u.get('nearface') else 'full'))
     return labels
 
 
@@ -1235,7 +1663,7 @@ _rform = st.sampled_from(['list', 'array', 'list', 'array', 'tuple', 'fortran'])
 def refusal_cases(draw):
     kind = draw(_rkind)
     if kind in ('hex_sum',):
-        u = draw(ucells(family='hexagonal', far_origin=False))
+        u = draw(ucells(family='hexagonal', far_origin=False, sensitive=True))
     elif kind == 'hex_on_nonhex':
         u = draw(ucells(family=draw(st.sampled_from([f for f in FAMILIES if f != 'hexagonal'])), far_origin=False))
     elif kind == 'hex_on_pseudohex':
@@ -1272,7 +1700,10 @@ def refusal_cases(draw):
         cnt = int(np.prod(shp))
         M = np.array(flat[:cnt]).reshape(shp).tolist()
     forms, hist = forms_and_history(draw, u)
-    return {'ucell': u, 'kind': kind, 'uvws': M, 'form': draw(_rform), 'forms': forms, 'hist': hist}
+    case = {'ucell': u, 'kind': kind, 'uvws': M, 'form': draw(_rform), 'forms': forms, 'hist': hist}
+    x = G4.extras(draw, u, post_level(forms))
+    case.update({'units': x['units'], 'props': x['props']})          # a refusal returns nothing to keep: no operations after it
+    return case
 
 
 REFUSAL_MSG = {
@@ -1288,6 +1719,10 @@ REFUSAL_MSG = {
 
 
 def oracle_refusal(case):
+    return with_units(case, _oracle_refusal)
+
+
+def _oracle_refusal(case):
     import atomman as am
     u = case['ucell']
     labels = ucell_labels(u)
@@ -1306,6 +1741,8 @@ def oracle_refusal(case):
     what = 'rotate(%r) [%s]' % (M, kind) + _scale_note(ucell_scale(u))
     if case.get('hist') or case.get('forms'):
         what += ' [unit cell given as %r, after the history %r]' % (case.get('forms') or DEFAULT_FORMS, case.get('hist'))
+    named = [('uvws', arg)]
+    frozen = args_frozen(named)
     try:
         out = sys0.rotate(arg, return_transform=True)
     except ValueError as e:
@@ -1313,6 +1750,7 @@ def oracle_refusal(case):
         require(any(m in msg for m in REFUSAL_MSG[kind]),
                 lambda: '%s raised ValueError(%r), which is not the documented refusal for this input (%r)' % (what, msg, REFUSAL_MSG[kind]))
         require_untouched(sys0, snap, what)
+        require_args_untouched(named, frozen, what)
         labels.update({'refusal', 'nt'})
         return labels
     res = out[0] if isinstance(out, tuple) else out
